@@ -24,7 +24,7 @@ func main() {
 	children := fs.Int("children", 0, "total number of children to start (overrides -cases as the budget)")
 	maxProcs := fs.Int("maxprocs", 24, "max processes per case")
 	big := fs.Bool("big", false, "first case uses maxprocs processes, all alive at once")
-	mode := fs.String("mode", "mixed", "seq | race | mixed | orphan")
+	mode := fs.String("mode", "mixed", "seq | race | mixed | orphan | burst")
 	dir := fs.String("dir", "", "scratch directory for marker files")
 	_ = fs.Parse(os.Args[1:])
 
@@ -88,6 +88,23 @@ func main() {
 			cr.finish()
 			st.Inc("case:orphan")
 			st.Sample(fmt.Sprintf("orphan scenario %d: the process ends while a background child of it lives on in its group", 1+k%3))
+		}
+		return
+	}
+	if *mode == "burst" {
+		for k := 0; k < c.Cases; k++ {
+			crng := r.Fork()
+			n := []int{20, 24, 33, 40, 48}[crng.Intn(5)]
+			if n > *maxProcs {
+				n = *maxProcs
+			}
+			cr := newCase(fmt.Sprintf("b%d_%d", c.Seed, k), "burst", *dir, tw, st)
+			burstCase(cr, crng, n)
+			cr.finish()
+			st.Inc("case:burst")
+			st.Dist["children"] += n
+			st.Sample(fmt.Sprintf("burst case: %d processes end while the subscriber does not read the events channel", n))
+			tw.Flush()
 		}
 		return
 	}
